@@ -38,8 +38,8 @@ def build(assets, adjust):
     return ds
 
 
-def ask_all(ds, queries, tz=None):
-    dh = BacktestDataHandler(None, data_sources=[ds])
+def ask_all(ds, queries, tz=None, universe=None):
+    dh = BacktestDataHandler(universe, data_sources=[ds])
     out = []
     for a, t in queries:
         sym = 'EQ:' + a
@@ -64,6 +64,21 @@ def handler(c):
     if c.get('tz'):
         # the same instants expressed in another time zone, asked of a fresh source (so that no memoised answer is reused)
         res['answers_tz'] = ask_all(build(c['assets'], c['adjust']), c['queries'], tz=c['tz'])
+    if c.get('handler_universe'):
+        # the handler's universe argument plays no part in what a price query returns
+        from qstrader.asset.universe.static import StaticUniverse
+        from qstrader.asset.universe.dynamic import DynamicUniverse
+        names = ['EQ:' + a for a in c['assets']]
+        hu = c['handler_universe']
+        if hu == 'late_dynamic':
+            uni = DynamicUniverse(dict((n, ts(4102444800)) for n in names))          # everything enters in 2100
+        elif hu == 'none_dynamic':
+            uni = DynamicUniverse(dict((n, None) for n in names))
+        elif hu == 'static_without':
+            uni = StaticUniverse(['EQ:OTHER'])
+        else:
+            uni = StaticUniverse(names)
+        res['answers_univ'] = ask_all(build(c['assets'], c['adjust']), c['queries'], universe=uni)
     if c.get('shared_dir'):
         # two source objects on ONE directory: the one with the opposite adjustment setting is built and queried first
         os.makedirs(TMPROOT, exist_ok=True)
